@@ -62,6 +62,24 @@ Theorem C10_levels_sound :
 Proof. exact levels_sound. Qed.
 Print Assumptions C10_levels_sound.
 
+(* The levels of (3) are unbounded naturals (Go: Level is uint32 and the
+   per-wire scratch array of AssignLevels is []Level).  Regression record: if
+   the per-wire level is stored modulo 2^16, then for a wire of AND depth
+   65535 (levels up to 65535 are stored exactly), one more AND (level 65535)
+   and a consumer of its output, the consumer gets level 0 instead of 65536 —
+   not above its producer's, so gate_deps_ok fails and the level-wise
+   schedule of Network.run evaluates it before its operand exists.  The
+   harness therefore checks AssignLevels on AND chains of depth 65535, 65536,
+   65537 and 70000 in every run (oracle key
+   c10:levels:and-depth>=65536:not-topological). *)
+Theorem C10_level_wrap16_refuted :
+  let d := N.to_nat 65535 in
+  fst (fst (assign_levels_loop_w wrap16 wrap_witness [d; 0; 0] 0)) = [d; 0] /\
+  fst (fst (assign_levels_loop wrap_witness [d; 0; 0] 0)) = [d; S d] /\
+  ~ gate_deps_ok 0 [(mkGate 0 0 1 AND, d)] (mkGate 1 1 2 XOR) 0.
+Proof. exact level_wrap16_refuted. Qed.
+Print Assumptions C10_level_wrap16_refuted.
+
 (* (4) For every sequence of Get counts (one per AND level of a run), every
    pool content, every split of the remaining words into batches and every
    arrival schedule with enough words: the sequence of Gets returns exactly
